@@ -180,7 +180,8 @@ pub fn from_artefact(a: &Value) -> Result<(Compiled, Function, Vec<Arg>, Option<
     Ok((c, f, args, gas))
 }
 
-pub const BIG_GAS: usize = 1_000_000_000_000;
+// 3*10^8 gas bounds a run by 3M steps: a program that loops until it is out of gas stays feasible.
+pub const BIG_GAS: usize = 300_000_000;
 
 /// Runs with a gas budget (only meaningful when the function takes the gas builtin).
 pub fn run(c: &Compiled, f: &Function, args: &[Arg], gas: Option<usize>) -> Result<Exec, ExecErr> {
